@@ -97,3 +97,7 @@ Print Assumptions C01_limb_level.
 Print Assumptions C01_poseidon_conforms.
 Print Assumptions C01_hash_conforms.
 Print Assumptions C01_loops_are_the_source.
+Print Assumptions C01_schedule.
+Print Assumptions C01_meta.
+Print Assumptions C01_hash_with_state_conforms.
+Print Assumptions C01_hash_ex_conforms.
